@@ -229,6 +229,26 @@ func matrixMain(args []string) int {
 			code = 1
 		}
 	}
+	if os.Getenv("GVERIF_UNTOUCHED") != "" {
+		// blind-spot census (a reading aid, not a check): production functions never looked up by name
+		var out []string
+		for n, f := range w.Funcs {
+			if w.named[n] || !w.IsProd(f) || f.Parent() != nil {
+				continue
+			}
+			ni := 0
+			for _, b := range f.Blocks {
+				ni += len(b.Instrs)
+			}
+			if ni >= 25 {
+				out = append(out, fmt.Sprintf("%5d %s %s", ni, n, w.Pos(f.Pos())))
+			}
+		}
+		sort.Strings(out)
+		for _, l := range out {
+			fmt.Println("UNTOUCHED", l)
+		}
+	}
 	return code
 }
 
